@@ -32,6 +32,8 @@ struct St {
     unsettled_mode: bool,
     to_settle: Vec<u32>,
     detached: bool,
+    /// transfer frames received when the peer last stated its session window
+    win_mark: u64,
 }
 
 fn absorb_frame(st: &mut St, f: &wire::WFrame) {
@@ -101,6 +103,12 @@ async fn quiesce(peer: &mut Peer, st: &mut St, net: &crate::net::NetHandle, mon:
         }
         break;
     }
+    // with the peer's session window used up the endpoint may be holding transfers of deliveries
+    // that its link sent under an earlier grant: nothing is superseded yet
+    if st.ps.transfers_received - st.win_mark >= st.ps.incoming_window as u64 {
+        sim::probe("quiescent-with-window-used-up");
+        return true;
+    }
     let mut m = mon.borrow_mut();
     m.sync();
     // every credit statement so far has been processed by the endpoint
@@ -113,6 +121,30 @@ async fn quiesce(peer: &mut Peer, st: &mut St, net: &crate::net::NetHandle, mon:
     }
     sim::probe("quiescence-floor");
     true
+}
+
+/// Every flow restates the peer's session window from where it stands
+async fn send_flow(peer: &mut Peer, st: &mut St, f: &peer::FlowArgs) {
+    st.win_mark = st.ps.transfers_received;
+    peer.send(st.ps.channel, &peer::flow(f)).await;
+}
+
+/// Quiescence with nothing held back by the peer's session window: as long as the window is
+/// used up the endpoint may be holding transfers, so it is opened again (a session-level flow,
+/// which says nothing about link credit) until a quiescent moment finds room left in it
+async fn quiesce_unheld(peer: &mut Peer, st: &mut St, net: &crate::net::NetHandle, mon: &wire::MonitorRef, peer_dir: usize) -> bool {
+    loop {
+        if !quiesce(peer, st, net, mon, peer_dir).await {
+            return false;
+        }
+        let used = st.ps.transfers_received - st.win_mark;
+        if used < st.ps.incoming_window as u64 || st.detached {
+            return true;
+        }
+        sim::probe("session-window-reopened");
+        let f = st.ps.flow_args();
+        send_flow(peer, st, &f).await;
+    }
 }
 
 /// The peer's side of the conversation once the link is attached
@@ -147,7 +179,7 @@ async fn credit_script(
                     f.echo = Some(true);
                 }
                 st.limit = dc_rcv(st).wrapping_add(c);
-                peer.send(st.ps.channel, &peer::flow(&f)).await;
+                send_flow(peer, st, &f).await;
                 sim::probe("credit-granted");
             }
             4 => {
@@ -157,7 +189,7 @@ async fn credit_script(
                 f.delivery_count = Some(dc_rcv(st));
                 f.link_credit = Some(0);
                 st.limit = dc_rcv(st);
-                peer.send(st.ps.channel, &peer::flow(&f)).await;
+                send_flow(peer, st, &f).await;
                 sim::probe("credit-reduced-to-zero");
             }
             5 => {
@@ -171,8 +203,8 @@ async fn credit_script(
                 let limit = dc_rcv(st).wrapping_add(c);
                 st.limit = limit;
                 let before = st.ep_flows.len();
-                peer.send(st.ps.channel, &peer::flow(&f)).await;
-                if !quiesce(peer, st, net, mon, peer_dir).await {
+                send_flow(peer, st, &f).await;
+                if !quiesce_unheld(peer, st, net, mon, peer_dir).await {
                     return;
                 }
                 if st.detached {
@@ -218,13 +250,13 @@ async fn credit_script(
                 f.delivery_count = Some(dc_rcv(st));
                 f.link_credit = Some(0);
                 f.drain = Some(false);
-                peer.send(st.ps.channel, &peer::flow(&f)).await;
-                if !quiesce(peer, st, net, mon, peer_dir).await {
+                send_flow(peer, st, &f).await;
+                if !quiesce_unheld(peer, st, net, mon, peer_dir).await {
                     return;
                 }
             }
             6 => {
-                if !quiesce(peer, st, net, mon, peer_dir).await {
+                if !quiesce_unheld(peer, st, net, mon, peer_dir).await {
                     return;
                 }
             }
@@ -235,7 +267,7 @@ async fn credit_script(
                 f.delivery_count = Some(dc_rcv(st));
                 f.link_credit = Some(st.limit.wrapping_sub(dc_rcv(st)).min(1 << 20));
                 f.echo = Some(true);
-                peer.send(st.ps.channel, &peer::flow(&f)).await;
+                send_flow(peer, st, &f).await;
             }
         }
     }
@@ -250,7 +282,7 @@ async fn credit_script(
     f.delivery_count = Some(dc_rcv(st));
     f.link_credit = Some(remaining + 2);
     st.limit = dc_rcv(st).wrapping_add(remaining + 2);
-    peer.send(st.ps.channel, &peer::flow(&f)).await;
+    send_flow(peer, st, &f).await;
     let deadline = tokio::time::Instant::now() + sim::OP_DEADLINE;
     loop {
         if st.completed >= total && send_state.borrow().done {
@@ -276,8 +308,13 @@ async fn credit_script(
             );
             return;
         }
-        // the peer stays silent as far as flows go; it only reads (and settles in unsettled mode)
+        // the peer stays silent as far as link credit goes; it only reads (and settles in unsettled
+        // mode) and keeps its session window open
         absorb(peer, st, 200).await;
+        if st.ps.transfers_received - st.win_mark >= st.ps.incoming_window as u64 {
+            let f = st.ps.flow_args();
+            send_flow(peer, st, &f).await;
+        }
     }
 }
 
@@ -367,13 +404,16 @@ pub async fn run_client() {
     let unsettled = choice(3) == 1;
     let batchable = unsettled && choice(2) == 1;
     let yield_den = pick(&[2u32, 2, 3, 0]);
+    // a small session window at the peer: transfers are held back by the session and released
+    // by the next flow, which may be the very flow that asks for a drain
+    let peer_window = pick(&[5000u32, 5000, 5000, 1, 2, 4]);
     let mut ccfg = EndpointCfg::default_cfg();
     ccfg.sess_buffer = pick(&[2048usize, 2048, 4, 1]);
     let (nab, nba, nd) = world::draw_net(true);
     sim::set_sched_yield_den(yield_den);
     sim::set_config(format!(
-        "side=client initial-delivery-count={} msgs={} mms={:?} unsettled={} batchable={} h2-yield=1/{} sbuf={} {}",
-        initial_dc, n, mms, unsettled, batchable, yield_den, ccfg.sess_buffer, nd
+        "side=client initial-delivery-count={} msgs={} mms={:?} unsettled={} batchable={} h2-yield=1/{} sbuf={} peer-session-window={} {}",
+        initial_dc, n, mms, unsettled, batchable, yield_den, ccfg.sess_buffer, peer_window, nd
     ));
     sim::mark_nontrivial();
     let models = Models {
@@ -386,7 +426,7 @@ pub async fn run_client() {
         None => return,
     };
     let peer::ClientVsPeer { mut client, mut peer, net, mon, .. } = cvp;
-    let mut ps = PeerSession::new(0, 100, 5000, 5000);
+    let mut ps = PeerSession::new(0, 100, peer_window, 5000);
     let begin_fut = sim::in_group(1, Session::builder().buffer_size(ccfg.sess_buffer).begin(&mut client));
     let peer_begin = async {
         let b = peer.expect(wire::BEGIN).await?;
@@ -455,6 +495,7 @@ pub async fn run_client() {
         unsettled_mode: unsettled,
         to_settle: Vec::new(),
         detached: false,
+        win_mark: 0,
     };
     credit_script(&mut peer, &mut st, &net, &mon, 1, n as u32, &send_state).await;
     if sim::has_violation() {
@@ -477,7 +518,14 @@ pub async fn run_listener() {
     let lcfg = EndpointCfg::default_cfg();
     let (nab, nba, nd) = world::draw_net(true);
     sim::set_sched_yield_den(yield_den);
-    sim::set_config(format!("side=listener msgs={} unsettled={} h2-yield=1/{} {}", n, unsettled, yield_den, nd));
+    // flows the peer pipelines behind its attach, before the application has accepted the link:
+    // 0 none; 1 plain grants; 2 the last one asks for a drain; 3 the last one asks for an echo
+    let pipelined = pick(&[0u32, 0, 1, 1, 2, 3]);
+    let pipelined_credits: Vec<u32> = (0..1 + choice(3)).map(|_| pick(&[1u32, 3, 2, 5, 0])).collect();
+    sim::set_config(format!(
+        "side=listener msgs={} unsettled={} h2-yield=1/{} pipelined-flows={} credits={:?} {}",
+        n, unsettled, yield_den, pipelined, pipelined_credits, nd
+    ));
     sim::mark_nontrivial();
     let models = Models {
         credit: true,
@@ -498,6 +546,8 @@ pub async fn run_listener() {
     let msgs2 = msgs_v.clone();
     let got_sender: world::Slot<Result<(), String>> = world::Slot::new();
     let got2 = got_sender.clone();
+    let accept_gate: world::Slot<()> = world::Slot::new();
+    let gate2 = accept_gate.clone();
     // listener application: accept the session and the link, then send
     sim::spawn(
         "listener-app",
@@ -510,6 +560,7 @@ pub async fn run_listener() {
                 }
             };
             let la = LinkAcceptor::new();
+            gate2.take().await;
             match la.accept(&mut sess).await {
                 Ok(LinkEndpoint::Sender(s)) => {
                     got2.put(Ok(()));
@@ -535,6 +586,48 @@ pub async fn run_listener() {
     let mut args = AttachArgs::receiver("lsnd", peer_handle);
     args.snd_settle_mode = Some(if unsettled { 0 } else { 1 });
     peer.send(ps.channel, &peer::attach(&args)).await;
+    let mut st = St {
+        ps,
+        ep_handle: 0,
+        peer_handle,
+        initial_dc: 0,
+        completed: 0,
+        open_delivery: false,
+        limit: 0,
+        ep_flows: Vec::new(),
+        unsettled_mode: false,
+        to_settle: Vec::new(),
+        detached: false,
+        win_mark: 0,
+    };
+    let mut last_credit = None;
+    if pipelined > 0 {
+        // the receiver does not know the sender's delivery-count yet: the field stays unset and the
+        // sender has to take its own initial delivery-count for it
+        let k = pipelined_credits.len();
+        for (i, c) in pipelined_credits.iter().enumerate() {
+            let mut f = st.ps.flow_args();
+            f.handle = Some(peer_handle);
+            f.delivery_count = None;
+            f.link_credit = Some(*c);
+            if i + 1 == k {
+                match pipelined {
+                    2 => f.drain = Some(true),
+                    3 => f.echo = Some(true),
+                    _ => {}
+                }
+            }
+            send_flow(&mut peer, &mut st, &f).await;
+            sim::fault("flow-pipelined-before-accept");
+        }
+        last_credit = pipelined_credits.last().copied();
+        // the listener session has provably received all of them before the application accepts
+        // the link: only the last one counts from here on
+        if !quiesce(&mut peer, &mut st, &net, &mon, 0).await {
+            return;
+        }
+    }
+    accept_gate.put(());
     let a = match peer.expect(wire::ATTACH).await {
         Some(a) => a,
         None => {
@@ -551,19 +644,67 @@ pub async fn run_listener() {
         }
         None => return,
     }
-    let mut st = St {
-        ps,
-        ep_handle: ap.field(1).as_u32().unwrap_or(0),
-        peer_handle,
-        initial_dc: ap.field(9).as_u32().unwrap_or(0),
-        completed: 0,
-        open_delivery: false,
-        limit: ap.field(9).as_u32().unwrap_or(0),
-        ep_flows: Vec::new(),
-        unsettled_mode: unsettled && ap.field(3).as_u32() != Some(1),
-        to_settle: Vec::new(),
-        detached: false,
-    };
+    st.ep_handle = ap.field(1).as_u32().unwrap_or(0);
+    st.initial_dc = ap.field(9).as_u32().unwrap_or(0);
+    st.limit = st.initial_dc.wrapping_add(last_credit.unwrap_or(0));
+    st.unsettled_mode = unsettled && ap.field(3).as_u32() != Some(1);
+    for f in std::mem::take(&mut peer.skipped) {
+        absorb_frame(&mut st, &f);
+    }
+    if pipelined >= 2 {
+        // the request that came with the last pipelined flow is owed an answer once the link exists
+        if !quiesce(&mut peer, &mut st, &net, &mon, 0).await {
+            return;
+        }
+        let c = last_credit.unwrap_or(0);
+        let limit = st.initial_dc.wrapping_add(c);
+        match st.ep_flows.last() {
+            None if pipelined == 3 => {
+                // an unanswered echo request is not in the property's statement: counted only
+                sim::probe("pipelined-echo-unanswered");
+            }
+            None => {
+                // DESIGN section 5.2: the listener session applies flows that arrived before the link
+                // was accepted when the link is registered, and throws the answer away
+                sim::violation_sig(
+                    "drain-not-answered",
+                    "flow-pipelined-before-accept",
+                    format!(
+                        "the peer pipelined a flow (credit {}, drain=true) behind its attach; after the link was accepted the listener's sender wrote no flow ({} deliveries arrived)",
+                        c, st.completed
+                    ),
+                );
+                return;
+            }
+            Some(reply) if pipelined == 2 => {
+                let credit = reply.field(6).as_u32();
+                let dc = reply.field(5).as_u32();
+                if credit != Some(0) || dc != Some(limit) {
+                    sim::violation(
+                        "drain-accounting",
+                        format!("after a pipelined drain with limit {} the sender reports delivery-count {:?} link-credit {:?} ({} deliveries arrived)", limit, dc, credit, st.completed),
+                    );
+                    return;
+                }
+                let gave_back = limit.wrapping_sub(dc_rcv(&st));
+                if gave_back <= u32::MAX / 2 {
+                    st.initial_dc = st.initial_dc.wrapping_add(gave_back);
+                }
+                sim::probe("drain-consumed");
+                let mut f = st.ps.flow_args();
+                f.handle = Some(peer_handle);
+                f.delivery_count = Some(dc_rcv(&st));
+                f.link_credit = Some(0);
+                f.drain = Some(false);
+                st.limit = dc_rcv(&st);
+                send_flow(&mut peer, &mut st, &f).await;
+                if !quiesce(&mut peer, &mut st, &net, &mon, 0).await {
+                    return;
+                }
+            }
+            Some(_) => sim::probe("pipelined-echo-answered"),
+        }
+    }
     credit_script(&mut peer, &mut st, &net, &mon, 0, n as u32, &send_state).await;
     if sim::has_violation() {
         return;
